@@ -12,6 +12,29 @@ DISPATCH = "aiomysensors.model.protocol.get_incoming_message_handler"
 DISPATCH_OUT = "aiomysensors.model.protocol.get_outgoing_message_handler"
 
 
+def dispatch_calls(ctx: Ctx, f: FuncInfo, getter: str, within: ast.AST | None = None) -> list[ast.Call]:
+    """Calls `h(...)` in f where h is the result of `getter(...)`: a local bound once to that call, or the call itself."""
+    from .common import callee_names
+
+    def from_getter(e) -> bool:
+        return isinstance(e, ast.Call) and getter in callee_names(ctx, f, e)
+
+    la = ctx.I.local_assigns(f)
+    out = []
+    nodes = list(ast.walk(within)) if within is not None else list(ctx.own_nodes(f))
+    for n in nodes:
+        if not isinstance(n, ast.Call):
+            continue
+        fn = n.func
+        if isinstance(fn, ast.Name):
+            vals = la.get(fn.id) or []
+            if len(vals) == 1 and isinstance(vals[0], ast.expr) and from_getter(vals[0]):
+                out.append(n)
+        elif from_getter(fn):
+            out.append(n)
+    return out
+
+
 def _idiom_call(ctx: Ctx, f: FuncInfo) -> ast.Call:
     calls = [c for g, c in ctx.I.dispatch_sites() if g is f]
     if len(calls) != 1:
